@@ -1,6 +1,7 @@
 package nsqd
 
 import (
+	"bytes"
 	"encoding/binary"
 	"fmt"
 	"io"
@@ -122,6 +123,13 @@ func (lp *lookupPeer) Command(cmd *nsq.Command) ([]byte, error) {
 	if err != nil {
 		lp.Close()
 		return nil, err
+	}
+	if bytes.HasPrefix(resp, []byte("E_")) {
+		// nsqlookupd refused the command. Whether it kept this connection's registrations
+		// is unknown, so do not keep the connection: the next Command reconnects and
+		// registers everything again (connectCallback)
+		lp.Close()
+		return nil, fmt.Errorf("lookupd returned %s", resp)
 	}
 	return resp, nil
 }
